@@ -96,6 +96,14 @@ func (v *formatter_) GetMaximum() int {
 // Public
 
 func (v *formatter_) FormatValue(value any) (source string) {
+	// A failed attempt must not leave partial text or indentation behind.
+	defer func() {
+		if r := recover(); r != nil {
+			v.depth_ = 0
+			v.result_.Reset()
+			panic(r)
+		}
+	}()
 	v.formatValue(value)
 	v.appendNewline()
 	source = v.getResult()
